@@ -23,7 +23,7 @@ pub fn parse_raw3<'a>(
         trace!(
             "For mipmap size {:?} we should fetch {} bytes",
             blp_header.mipmap_size(i),
-            n * 4
+            n as u64 * 4
         );
 
         let mut reader = Cursor::new(image_bytes);
@@ -78,11 +78,11 @@ pub fn parse_dxtn<'a>(
                 size: 0,
             });
         }
-        if (offset + size) as usize > original_input.len() {
+        if offset as u64 + size as u64 > original_input.len() as u64 {
             error!(
                 "Offset+size of mipmap {} is out of bounds! {} > {}",
                 i,
-                offset + size,
+                offset as u64 + size as u64,
                 original_input.len()
             );
             return Err(Error::OutOfBounds {
@@ -91,12 +91,12 @@ pub fn parse_dxtn<'a>(
             });
         }
 
-        let image_bytes = &original_input[offset as usize..(offset + size) as usize];
+        let image_bytes = &original_input[offset as usize..offset as usize + size as usize];
         // DXT data is stored as 4x4 blocks: partial blocks at the right and bottom edge
         // are stored whole, so round each dimension up separately
         let (width, height) = blp_header.mipmap_size(i);
         let blocks_n = (width as usize).div_ceil(4) * (height as usize).div_ceil(4);
-        let mut blocks_size = blocks_n * dxtn.block_size();
+        let mut blocks_size = blocks_n.saturating_mul(dxtn.block_size());
         trace!("Dxtn blocks count: {blocks_n}");
         trace!("Dxtn format: {dxtn:?}, block size: {}", dxtn.block_size());
         trace!(
